@@ -1,5 +1,18 @@
 package sim
 
-import "math"
+import (
+	"math"
+	"os"
+	"strconv"
+)
+
+func envInt(name string, def int64) int64 {
+	if s := os.Getenv(name); s != "" {
+		if v, err := strconv.ParseInt(s, 10, 64); err == nil {
+			return v
+		}
+	}
+	return def
+}
 
 func mathFloat64bits(f float64) uint64 { return math.Float64bits(f) }
